@@ -16,7 +16,8 @@ import json
 import os
 
 FAMILIES = {"bsc": ["bsc", "bytom"], "heco": ["heco", "hsc"], "pixie": ["pixie"], "clique": ["msc"], "bor": ["bor"]}
-UNCOVERED = ["polygon bor: sprint boundaries (span validation against heimdall, proposer rotation) are outside the modelled domain", "msc: headers that cast clique votes (signer set changes by voting) are outside the modelled domain"]
+UNCOVERED = ["polygon bor: sprint-end headers are covered with the STORED span only (no heimdall span proof is synthesised); headers of the next "
+             "sprint (proposer rotation by IncrementProposerPriority at a sprint start) are outside the modelled domain", "msc: headers that cast clique votes (signer set changes by voting) are outside the modelled domain"]
 
 
 def _replay(ctx, b, router, cfgname, items, stats, what):
@@ -76,6 +77,9 @@ def run(ctx):
             continue
         if fam == "bor":
             plan.append((fam, "P3" if q else "P4", "P"))
+            # sprint-end header 203 against the stored span [200, End]: End - 203 in {-1, 0, 1, Sprint}
+            for end in ("S202", "S203", "S204", "S207"):
+                plan.append((fam, end, end))
             continue
         plan.append((fam, "A3" if q else "A4", "A"))
         if not q or fam == "bsc":
